@@ -32,10 +32,10 @@ def key_of(order):
     return None if order is None else order.index
 
 
-def acyclic_def(rng, sigma):
+def acyclic_def(rng, sigma, nmax=6):
     """Finite language: edges only go to higher-numbered states; variants: completed with a trap,
     an unproductive cycle (reachable, not co-accessible), unreachable junk."""
-    n = rng.randint(1, 6)
+    n = rng.randint(1, nmax)
     dens = rng.choice([0.4, 0.6, 0.9])
     trans = {i: {} for i in range(n)}
     for i in range(n):
@@ -308,10 +308,11 @@ def run(ctx):
     for i in range(ctx.n(260, 5000)):
         sigma = gen.rand_alphabet(rng)
         r = rng.random()
+        big = ctx.tier == "thorough" and rng.random() < 0.2
         if r < 0.45:
-            ddef, tag = gen.rand_dfa_def(rng, alphabet=sigma), "random"
+            ddef, tag = gen.rand_dfa_def(rng, alphabet=sigma, nmax=8 if big else 6), "random"
         elif r < 0.95:
-            ddef, tag = acyclic_def(rng, sigma), "acyclic"
+            ddef, tag = acyclic_def(rng, sigma, nmax=8 if big else 6), "acyclic"
         else:
             ddef, tag = gen.rand_dfa_def(rng, alphabet=sigma, p_final=0.0), "empty"
         d = mk_dfa(ddef)
